@@ -180,7 +180,10 @@ public:
           {
             enqueuedSignal.reset();
             if (queue.pop(job))
+            {
+              enqueuedSignal.set(); // the reset above may have hidden further queued jobs from the other workers
               break;
+            }
             enqueuedSignal.wait();
           }
           dequeuedSignal.set();
